@@ -148,11 +148,21 @@ def run(case):
     if np.abs(np.linalg.norm(n, axis=-1) - 1).max() > 1e-12 or np.abs(n - want / ln).max() > 1e-9:
         raise Violation('normalize-unit-and-parallel', '')
     # transform
-    A = np.array(case['matrix'], float)
-    tv = np.asarray(gcall(o.transform, A).vectors, float)
+    A = np.array(case['matrix'], float) * float(case.get('matrix_scale', 1.0))  # "all 3x3 matrices": also changes of unit (Angstrom -> m, -> fm)
+    to = gcall(o.transform, A)
+    tv = np.asarray(to.vectors, float)
     wt = np.einsum('ij,tbj->tbi', A, want)
-    if tv.shape != wt.shape or np.abs(tv - wt).max() > 1e-9 * max(1.0, np.abs(wt).max()):
-        raise Violation('transform-applies-matrix', f'max deviation {np.abs(tv - wt).max() if tv.shape == wt.shape else tv.shape}')
+    tscale = max(float(np.abs(A).max()), 1e-300) * float(np.abs(want).max())
+    if tv.shape != wt.shape or np.abs(tv - wt).max() > 1e-9 * tscale:
+        raise Violation('transform-applies-matrix', f'max deviation {np.abs(tv - wt).max() if tv.shape == wt.shape else tv.shape} (matrix entries up to {np.abs(A).max():.3e})')
+    # ... and the spherical representation of the transformed vectors is invertible as well (rows the matrix maps to ~0 have no direction)
+    tsph = np.asarray(gcall(lambda: to.vectors_spherical), float)
+    ok = np.linalg.norm(wt, axis=-1) > 1e-6 * tscale
+    if ok.any():
+        az_, el_, r_ = np.radians(tsph[..., 0]), np.radians(tsph[..., 1]), tsph[..., 2]
+        tback = np.stack([r_ * np.cos(el_) * np.cos(az_), r_ * np.cos(el_) * np.sin(az_), r_ * np.sin(el_)], axis=-1)
+        if tsph.shape != wt.shape or not np.all(np.isfinite(tback[ok])) or np.abs(tback[ok] - wt[ok]).max() > 1e-9 * tscale:
+            raise Violation('spherical-invertible', f'after transform by a matrix with entries up to {np.abs(A).max():.3e}: spherical -> Cartesian differs from the vectors by {np.abs(tback[ok] - wt[ok]).max() if tsph.shape == wt.shape else tsph.shape} (vector lengths ~{np.linalg.norm(wt, axis=-1).max():.3e})')
     # symmetrise by point-group name and by an explicit stack of operations
     from pymatgen.symmetry.groups import PointGroup
 
@@ -285,7 +295,7 @@ def mol_cases(draw, tier, min_frames=2):
     quats = [[list(draw(q)) for _ in range(Nc)] for _ in range(T)]
     drift = [[[draw(st.floats(-0.01, 0.01)) for _ in range(3)] for _ in range(Nc)] for _ in range(T)]
     return {'lattice': lat, 'frames': T, 'centres': centres, 'bonds': bonds, 'quats': quats, 'drift': drift,
-            'order': draw(st.permutations(list(range(15)))), 'matrix': [[draw(st.floats(-2, 2)) for _ in range(3)] for _ in range(3)],
+            'order': draw(st.permutations(list(range(15)))), 'matrix': [[draw(st.floats(-2, 2)) for _ in range(3)] for _ in range(3)], 'matrix_scale': draw(st.sampled_from([1.0, 1.0, 1.0, 1e-10, 1e-5, 1e-15, 1e6, 1e12])),
             'image_shift': ([[[draw(st.sampled_from([0, 0, 0, 1, -1, 3])) for _ in range(3)] for _ in range(5 * Nc)] for _ in range(T)] if draw(st.integers(0, 3)) == 0 else None),
             'point_group': draw(st.sampled_from(PG)), 'species_kind': draw(st.sampled_from(['Species', 'Element'])), 'normalized': draw(st.booleans()),
             'conj': draw(st.sampled_from([[0.3, -0.5, 0.7, 0.4], [0.9, 0.1, 0.1, 0.4], [0.5, 0.5, 0.5, 0.5]])), 'extend_at': draw(st.integers(0, 6))}
